@@ -193,7 +193,7 @@ func (e *Exchange) IsCacheable(l *log.Logger) bool {
 		return false
 	}
 
-	cacheDirectives := parseCacheControlDirectives(e.ResponseHeaders.Get("Cache-Control"))
+	cacheDirectives := parseCacheControlDirectives(strings.Join(e.ResponseHeaders.Values("Cache-Control"), ","))
 
 	// "o  the "no-store" cache directive (see Section 5.2) does not appear
 	//     in request or response header fields, and"
